@@ -579,6 +579,11 @@ func (it *Interp) performEval(n *Node, ctx *execCtx, direct bool) Value {
 		it.evalActive++
 		defer func() { it.evalActive-- }()
 	}
+	// every eval call parses its source text anew: its template sites are new sites
+	savedEpoch := it.epoch
+	it.epochs++
+	it.epoch = it.epochs
+	defer func() { it.epoch = savedEpoch }()
 	c := it.evalStmts(n.L, ectx)
 	if c.t == cThrow {
 		panic(&Thrown{c.v})
